@@ -32,7 +32,8 @@ TimingsA == <<
   [cyc |-> 4, del |-> 1, rep |-> -3, rev |-> FALSE], [cyc |-> 2, del |-> 0, rep |-> -3, rev |-> TRUE] >>
 EasesA == <<1, 2, 3, 11, 14, 19, 37>>      \* Lin, Sq, OutSq and some built-ins (ids = harness table)
 
-Vals(i, p) == 8 * i + 3 * p
+\* distinct per insertion index and property; alternating sign so that scaled replays reach across zero
+Vals(i, p) == (IF (i % 2) = 0 THEN -1 ELSE 1) * ((8 * i) + (3 * p))
 AllPos == [i \in 1..(PD + 1) |-> i - 1]
 \* positions 0.5 and the next f32 above it, 0.25 and the one below, ... : distinct but closer than f32::EPSILON
 NearPos == <<0, 8388608, 8388609, 4194304, 4194303, 16777216, 16777215, 12582912>>
@@ -82,9 +83,11 @@ Line(de, tm, ov) ==
   LET cfg == [kfs |-> kfs, de |-> de, tm |-> tm] IN
   [kind |-> "tl", pd |-> PD, np |-> NP, kfs |-> kfs, de |-> de, tm |-> tm,
    ov |-> ov, total |-> TotalOf(cfg),
-   evals |-> [i \in 1..(Horizon(tm) + 1) |->
-                LET r == Eval(cfg, ov, i - 1) IN [p \in Props |-> SetToSeq(r[p])]],
-   cls |-> [i \in 1..(Horizon(tm) + 1) |-> [p \in Props |-> Class(cfg, i - 1, p)]]]
+   \* evaluated at t = -3 (before time zero: still the 0% / start value) and at every tick 0..Horizon
+   ts |-> [i \in 1..(Horizon(tm) + 2) |-> IF i = 1 THEN -3 ELSE i - 2],
+   evals |-> [i \in 1..(Horizon(tm) + 2) |->
+                LET r == Eval(cfg, ov, IF i = 1 THEN -3 ELSE i - 2) IN [p \in Props |-> SetToSeq(r[p])]],
+   cls |-> [i \in 1..(Horizon(tm) + 2) |-> [p \in Props |-> Class(cfg, IF i = 1 THEN -3 ELSE i - 2, p)]]]
 
 OvOf(h) == [p \in Props |-> <<I(70 + p + (h % 5))>>]
 
